@@ -27,6 +27,43 @@ def _pairs_of(idx, mod, cls_node, e):
     return None
 
 
+def unicode_escape_calls(fn):
+    """-> [(call node, operand expression, encoding or None)] for `<x>.decode("unicode_escape")` and `codecs.decode(<x>,
+    "unicode_escape")` in `fn`.  encoding: "latin-1" (with backslashreplace), "utf-8" (an explicit utf-8 encode, or TEXT handed to the
+    codec - Python then takes its UTF-8 bytes), None when the operand is something else"""
+    out = []
+    for n in ast.walk(fn):
+        if not isinstance(n, ast.Call):
+            continue
+        opnd = None
+        method = False
+        if isinstance(n.func, ast.Attribute) and n.func.attr == "decode" and n.args and isinstance(n.args[0], ast.Constant) and n.args[0].value == "unicode_escape":
+            opnd = n.func.value
+            method = True
+        elif K.src(n.func) in ("codecs.decode", "decode") and len(n.args) >= 2 and isinstance(n.args[1], ast.Constant) and n.args[1].value == "unicode_escape":
+            opnd = n.args[0]
+        elif K.src(n.func) in ("codecs.decode", "decode") and n.args and any(k.arg == "encoding" and isinstance(k.value, ast.Constant) and k.value.value == "unicode_escape" for k in n.keywords):
+            opnd = n.args[0]
+        if opnd is None:
+            continue
+        enc = opnd
+        if isinstance(enc, ast.Name):
+            defs_ = [x.value for x in ast.walk(fn) if isinstance(x, ast.Assign) and len(x.targets) == 1 and isinstance(x.targets[0], ast.Name) and x.targets[0].id == enc.id]
+            if len(defs_) == 1:
+                enc = defs_[0]
+        encoding = None
+        if isinstance(enc, ast.Call) and isinstance(enc.func, ast.Attribute) and enc.func.attr == "encode":
+            eargs = [a.value for a in enc.args if isinstance(a, ast.Constant)] + [k.value.value for k in enc.keywords if isinstance(k.value, ast.Constant)]
+            if eargs[:1] in (["latin-1"], ["latin1"], ["iso-8859-1"]) and "backslashreplace" in eargs:
+                encoding = "latin-1"
+            elif not eargs or str(eargs[0]).lower().replace("-", "") == "utf8":
+                encoding = "utf-8"
+        elif not method and isinstance(enc, ast.Subscript) and "value" in K.src(enc):
+            encoding = "utf-8"  # codecs.decode(<text>, ...): the text's UTF-8 bytes
+        out.append((n, enc, encoding))
+    return out
+
+
 def reader_decoder(idx, L):
     """-> dict(kind='codec'|'chain'|'none'|'eval', pairs=[...], node=ast node) for the STRING token function"""
     rs = L.rule("STRING")
@@ -37,9 +74,18 @@ def reader_decoder(idx, L):
     for n in ast.walk(L.mod.tree if hasattr(L.mod, "tree") else ast.Module(body=[], type_ignores=[])):
         if isinstance(n, ast.ClassDef) and any(isinstance(x, ast.FunctionDef) and x.name == fn.name for x in n.body):
             cls_node = n
+    for n, _enc, encoding in unicode_escape_calls(fn):
+        return {"kind": "codec", "node": n, "pairs": None, "encoding": encoding}
+    # codecs.escape_decode(<text>.encode(E, [errors]))[0].decode(E, [errors]): the bytes-level escape decoder between an encode and
+    # a decode with constant arguments
     for n in ast.walk(fn):
-        if isinstance(n, ast.Call) and isinstance(n.func, ast.Attribute) and n.func.attr == "decode" and n.args and isinstance(n.args[0], ast.Constant) and n.args[0].value == "unicode_escape":
-            return {"kind": "codec", "node": n, "pairs": None}
+        if isinstance(n, ast.Call) and isinstance(n.func, ast.Attribute) and n.func.attr == "decode" and isinstance(n.func.value, ast.Subscript) \
+                and isinstance(n.func.value.slice, ast.Constant) and n.func.value.slice.value == 0 and isinstance(n.func.value.value, ast.Call) \
+                and K.src(n.func.value.value.func).split(".")[-1] == "escape_decode" and n.func.value.value.args:
+            inner = n.func.value.value.args[0]
+            if isinstance(inner, ast.Call) and isinstance(inner.func, ast.Attribute) and inner.func.attr == "encode" and all(isinstance(a_, ast.Constant) for a_ in inner.args + n.args) and not inner.keywords and not n.keywords:
+                return {"kind": "escape_decode", "node": n, "pairs": None, "enc": tuple(a_.value for a_ in inner.args), "dec": tuple(a_.value for a_ in n.args)}
+            raise AnalysisError("t_STRING decodes with codecs.escape_decode between an encode / decode pair whose arguments are not constants")
     for n in ast.walk(fn):
         if isinstance(n, ast.Call) and (K.src(n.func) in ("ast.literal_eval", "eval", "literal_eval")):
             return {"kind": "eval", "node": n, "pairs": None}
@@ -94,8 +140,17 @@ def decode_with(dec, text):
     """the extracted decoder applied to a string body (None when it rejects the text)"""
     if dec["kind"] == "codec":
         try:
+            if dec.get("encoding") == "utf-8":
+                return text.encode("utf-8").decode("unicode_escape")
             return text.encode("latin-1", "backslashreplace").decode("unicode_escape")
         except UnicodeDecodeError:
+            return None
+    if dec["kind"] == "escape_decode":
+        import codecs
+
+        try:
+            return codecs.escape_decode(text.encode(*dec["enc"]))[0].decode(*dec["dec"])
+        except ValueError:
             return None
     if dec["kind"] == "chain":
         for a, b in dec["pairs"]:
@@ -160,6 +215,11 @@ def encode_with(chain, text):
 def round_trip_witness(writer_chain, dec, maxlen=4):
     """first value whose written form the reader does not decode back to it (or None)"""
     for s in strings(maxlen):
+        w = encode_with(writer_chain, s)
+        if decode_with(dec, w) != s:
+            return s, w, decode_with(dec, w)
+    # text outside ASCII: a Latin-1 letter, a BMP character, one beyond the BMP (what the reader's byte handling must give back)
+    for s in strings(2, ("\\", '"', "n", "\u00e9", "\u20ac", "\U0001f600")):
         w = encode_with(writer_chain, s)
         if decode_with(dec, w) != s:
             return s, w, decode_with(dec, w)
